@@ -154,12 +154,16 @@ class Prop:
                     'the socket: OPEN / KEEPALIVE, UPDATEs (ADD-PATH, communities), End-of-RIB, NOTIFICATIONs (Cease, Hard Reset), '
                     'closing the socket, a non-BGP header, silence until a 3 s hold timer expires, CloseReason::AdminShutdown on the '
                     'session\'s close channel, a prefix limit of 0 on a never-announced family for the local Cease',
-                    'hand-built by the harness: the PeerSession is PeerSession::new_for_test() with the loopback stream, the local '
-                    'capabilities, a PeerFsm built from them, a close channel and the prefix limit put into its fields (not '
-                    'accept_connection); the close channel is not registered with the ConnArbiter, so force_down() does not close a live '
-                    'session; the admin_down field is set directly on the Peer record; the negotiated GR/LLGR values that are observed '
-                    'come from a second, throw-away session driven through apply_outputs with the same capabilities; a local Hard Reset '
-                    'cannot be produced on a socket and is covered only by the function-level gr_on_disconnect cases',
+                    'every session is built by the real accept_connection() from the Peer record (Global::add_peer) of the address '
+                    'the connection comes from, which also registers its close channel with the ConnArbiter and refuses an admin-down peer '
+                    'or a second connection; force_down() therefore closes a live session for real',
+                    'hand-built by the harness: before each connection the local capabilities of the case are written into '
+                    'Peer.config.local_cap and a PeerFsm sending them is put into the PeerContext (they differ from session to session; the '
+                    'daemon derives them once from the configuration); the admin_down field is set directly on the Peer record (not '
+                    'through the gRPC handler); CloseReason::AdminShutdown is sent on the registered close channel (what disable_peer does); '
+                    'the negotiated GR/LLGR values that are observed come from a second, throw-away PeerSession::new_for_test() driven '
+                    'through apply_outputs with the same capabilities; a local Hard Reset cannot be produced on a socket and is covered only '
+                    'by the function-level gr_on_disconnect cases',
                     'timers are fired through their oneshot sender (the RunNow path); a timer counts as armed while its sender is '
                     'present and not closed; wall-clock expiry of the restart / LLGR timers is not exercised (the hold timer is: really waited for)']
     assumptions = ['one peer, one shard; the restarting-speaker role (selection_deferral) is inactive',
@@ -261,7 +265,11 @@ class Prop:
                         r = rng.choice([0, 1, 2, 3, 5, 6, 7])      # 4 (local hard reset) cannot be produced on a socket
                     if mode in ('admin', 'any') and rng.random() < 0.2:
                         evs.append(('admin', True))
+                    elif mode in ('admin', 'any') and rng.random() < 0.1:
+                        evs.append(('admin', False))
                     evs.append(('down', r)); up = None
+                elif mode in ('force', 'any') and rng.random() < 0.4:
+                    evs.append(('force',)); up = None        # closes the live session
                 else:
                     evs.append(('rtimer',) if rng.random() < 0.5 else ('ltimer', rng.choice(F)))
         return evs
@@ -413,7 +421,7 @@ def oracle_h(c, obs):
         t = e[0]
         if t == 'admin':
             admin = e[1]
-        elif t == 'up' and sess is None:
+        elif t == 'up' and sess is None and not admin:      # an admin-down peer's connection is refused
             sess = e; gen += 1
             grf = set(e[2][0]) if e[2] else set()
             awaiting = set(f for f in grf if f in helper_fams)
@@ -456,6 +464,11 @@ def oracle_h(c, obs):
             helper_fams.discard(e[1])
         elif t == 'force':
             helper_fams = set(lts)
+            if sess is not None:
+                # the live session is closed administratively: nothing of it may be retained
+                if routes:
+                    return 'step %d: routes retained after a forced peer-down of the live session' % k
+                helper_fams = set(); sess = None; awaiting = set(); fresh = {}
         # -- invariants after every step
         cur = gen if sess else -9
         for r in routes:
